@@ -350,7 +350,7 @@ func runC20(t testingT, p *Program) *Result {
 					res.Probes["unfinished_tasks"]++
 				}
 			}
-			sch.Drain(0, 50)
+			sch.Drain(0, 2000)
 		})
 	}()
 	<-done
